@@ -3,6 +3,7 @@
    D23); proofs in Proofs/ExecLive.v, ExecMeasure.v. *)
 From Coq Require Import List Bool Arith.
 From EL Require Import Model.Exec Model.ExecInv Proofs.ExecLiveCor Proofs.ExecMeasure.
+From EL Require Import Model.StepExec Model.LiveSpec Proofs.StepSafe Proofs.StepLive Proofs.StepLiveCor.
 From EL Require Import Model.StepExec Model.DepExec Model.LiveSpec Proofs.DepSafe Proofs.DepLiveCor.
 Import ListNotations.
 
@@ -47,3 +48,15 @@ Proof.
   pose proof (dep_rest c n prog d k H1 H2 H3 H4 H5 H6 H7) as H. split; [exact (proj1 H) | exact (proj2 (proj2 (proj2 (proj2 H))))].
 Qed.
 Print Assumptions C05_resolver_no_deadlock.
+
+(* the per-call-process executor never deadlocks (requests that fit, no failing call) *)
+Theorem C05_percall_no_deadlock :
+  forall c n prog x,
+    xnofail c -> fits c -> wf_prog n prog -> xreach c (xinit n prog) x ->
+    xenabled c x = [] ->
+    main (base x) = MEnd /\ disp x = DDone.
+Proof.
+  intros c n prog x H1 H2 H3 H4 H5. pose proof (step_rest c n prog x H1 H2 H3 H4 H5) as H.
+  split; [exact (proj1 H) | exact (proj2 (proj2 (proj2 (proj2 H))))].
+Qed.
+Print Assumptions C05_percall_no_deadlock.
